@@ -131,7 +131,7 @@ Record state := mkSt {
   jconv : option convjob;
   jmerge : option mergejob;
   hist : list iresp;                   (* ghost: completed imports, newest first *)
-  views : list (N * option (N -> N)) }. (* open views: number -> version snapshot (None: opened on an empty index list, fetch() runs again) *)
+  views : list (N * (N -> N)) }.       (* open views: number -> version snapshot *)
 
 Definition init (cs : list N) : state :=
   mkSt 0 [] 0 0 0 0 [] cs (fun _ => 0) (fun _ _ => None) (fun _ => 0) [] O None None None None [] [].
@@ -169,7 +169,7 @@ Definition set_queue (st : state) (q : list N) : state :=
 Definition set_idx (st : state) (l : list N) (u : nat) : state :=
   mkSt (next st) (tags st) (m_upd st) (m_rst st) (m_add st) (m_cupd st) (queue st) (convs st) (toconv st) (cache st)
        (ver st) l u (jimp st) (jtag st) (jconv st) (jmerge st) (hist st) (views st).
-Definition set_views (st : state) (v : list (N * option (N -> N))) : state :=
+Definition set_views (st : state) (v : list (N * (N -> N))) : state :=
   mkSt (next st) (tags st) (m_upd st) (m_rst st) (m_add st) (m_cupd st) (queue st) (convs st) (toconv st) (cache st)
        (ver st) (idx st) (unmerge st) (jimp st) (jtag st) (jconv st) (jmerge st) (hist st) v.
 
@@ -418,8 +418,7 @@ Definition step (k : kf) (pick : N) (a : action) (st : state) : state :=
     | _, [] => st
     | Some t, _ =>
       let mx := maxl ids in
-      if mx =? 0 then st                     (* maxUsedStreamID-- == 0: the update is skipped *)
-      else if next st <=? mx then st         (* unknown stream id *)
+      if next st <=? mx then st              (* unknown stream id *)
       else
         let new := filter (fun s => negb (mem s (t_m t))) ids in
         let newset := fold_left (fun a s => add1 s a) new 0 in
@@ -436,8 +435,7 @@ Definition step (k : kf) (pick : N) (a : action) (st : state) : state :=
     | _, [] => st
     | Some t, _ =>
       let mx := maxl ids in
-      if mx =? 0 then st
-      else if next st <=? mx then st
+      if next st <=? mx then st
       else
         let old := filter (fun s => mem s (t_m t)) ids in
         let oldset := fold_left (fun a s => add1 s a) old 0 in
@@ -450,9 +448,12 @@ Definition step (k : kf) (pick : N) (a : action) (st : state) : state :=
     match tget n (tags st) with
     | None => st
     | Some t =>
-      let st1 := fold_left (fun s c => if memN c cs then s else detach s n c) (t_conv t) st in
-      let '(st2, ok) := attach_all st1 n cs in
-      if ok then start_converter st2 else st2
+      (* the request is validated before anything is changed *)
+      if forallb (fun c => tag_has_conv c t || (memN c (convs st) && negb (complex (t_def t)))) cs then
+        let st1 := fold_left (fun s c => if memN c cs then s else detach s n c) (t_conv t) st in
+        let '(st2, ok) := attach_all st1 n cs in
+        if ok then start_converter st2 else st2
+      else st
     end
   | ABodyImport r =>
     match jimp st with
@@ -561,22 +562,16 @@ Definition step (k : kf) (pick : N) (a : action) (st : state) : state :=
       start_merge (set_jmerge (set_idx st l (unmerge st + (length merged - 1))) None)
     | _ => st
     end
-  | AViewOpen v => set_views st ((v, match idx st with [] => None | _ => Some (ver st) end) :: filter (fun p => negb (fst p =? v)) (views st))
+  | AViewOpen v => set_views st ((v, ver st) :: filter (fun p => negb (fst p =? v)) (views st))
   | AViewData v c i =>
     match find (fun p => fst p =? v) (views st) with
-    | Some (_, osv) =>
-      (* View.fetch() is repeated while the view holds no index *)
-      let sv := match osv with Some f => f | None => ver st end in
-      let st0 := match osv, idx st with
-                 | None, _ :: _ => set_views st ((v, Some (ver st)) :: filter (fun p => negb (fst p =? v)) (views st))
-                 | _, _ => st
-                 end in
+    | Some (_, sv) =>
       match cache st c i with
-      | Some _ => st0
+      | Some _ => st
       | None =>
         if kf_viewstore k || (sv i =? ver st i)
-        then set_cache st0 (fun c' i' => if (c' =? c) && (i' =? i) then Some (sv i) else cache st c' i')
-        else st0
+        then set_cache st (fun c' i' => if (c' =? c) && (i' =? i) then Some (sv i) else cache st c' i')
+        else st
       end
     | None => st
     end
